@@ -6,7 +6,7 @@ CONSTANTS NameOrder <- MCNameOrder
           DataVals = {"nil", "empty", "x"}
           Builders = {"v0", "v1"}
           MaxLinks = 3
-          MaxSet = 2
+          MaxSet = 1
           SetLinksArgs <- MCSetLinksArgs
           Devs = {}
 VIEW MCView
